@@ -464,6 +464,11 @@ func compileRegexExpression(expression *RegexExpression) (*compiledRegexExpressi
 			}
 			if child != nil {
 				children = append(children, *child)
+			} else {
+				// A condition node without a condition is constant true. It
+				// must stay in the tree: dropping it from an OR would turn
+				// OR(true, ...) into a narrower (or empty, i.e. false) OR.
+				children = append(children, compiledRegexExpression{expressionType: RegexExpressionCondition})
 			}
 		}
 		return &compiledRegexExpression{
